@@ -56,6 +56,9 @@ pub fn check_bytes(ctx: &mut Ctx, family: &str, idx: u64, b: &[u8]) -> bool {
     let nontrivial = !obs.qs.is_empty() || obs.secs.iter().any(|s| !s.is_empty()) || (b.len() >= 4 && (b[2] != 0 || b[3] != 0));
     ctx.case_bytes(nontrivial, b);
     ctx.count("accepted_inputs");
+    if obs.secs.iter().flatten().any(|r| r.rtype == 41) {
+        ctx.count("accepted_with_more_than_one_opt_or_opt_outside_additional");
+    }
     for s in &obs.secs {
         for r in s {
             ctx.add(&format!("accepted_records_{}", type_name(r.rtype)), 1);
@@ -99,7 +102,20 @@ fn foreign_msg(seed: u64, idx: u64) -> (Vec<u8>, usize) {
         p.rcode = g.r.below(16) as u16 | if p.edns.is_some() { (g.r.int(8) as u16) << 4 } else { 0 };
     }
     let oi = g.r.usize(0, 5);
-    let m = p.to_wire(oi);
+    let mut m = p.to_wire(oi);
+    if idx % 6 == 1 {
+        // further OPT records: a second (third) one in the additional section, or one in another section
+        for _ in 0..g.r.usize(1, 2) {
+            let opts = match g.fields(41).pop() {
+                Some(f) => f,
+                None => F::Pairs(vec![]),
+            };
+            let rr = RRM::new(if g.r.chance(1, 5) { g.name() } else { vec![] }, 41, g.r.int(16) as u16, g.r.int(32) as u32, Rd::Fields(vec![opts]));
+            let sec = if g.r.chance(3, 4) { 2 } else { g.r.usize(0, 1) };
+            let at = g.r.usize(0, m.secs[sec].len());
+            m.secs[sec].insert(at, rr);
+        }
+    }
     let e = encode(&m, Plan::Arbitrary(Rng::for_case(seed, "c11-plan", idx)));
     (e.bytes, e.foreign_pointers)
 }
